@@ -427,6 +427,46 @@ fn make_file(rng: &mut Rng, fmt: &str) -> Vec<u8> {
     }
 }
 
+/// offsets at which a record starts (and the end of the last one) in an uncompressed BAM / BCF stream
+fn record_boundaries(fmt: &str, p: &[u8]) -> Vec<usize> {
+    let u32at = |i: usize| -> Option<usize> { p.get(i..i + 4).map(|b| u32::from_le_bytes([b[0], b[1], b[2], b[3]]) as usize) };
+    let mut at = if fmt == "bcf" {
+        match u32at(5) {
+            Some(l) => 9 + l,
+            None => return vec![],
+        }
+    } else {
+        // magic, l_text, text, n_ref, (l_name, name, l_ref)*
+        let mut at = match u32at(4) {
+            Some(l) => 8 + l,
+            None => return vec![],
+        };
+        let n = u32at(at).unwrap_or(0);
+        at += 4;
+        for _ in 0..n {
+            at += 4 + u32at(at).unwrap_or(0) + 4;
+        }
+        at
+    };
+    let mut v = Vec::new();
+    while at <= p.len() {
+        v.push(at);
+        let len = if fmt == "bcf" {
+            match (u32at(at), u32at(at + 4)) {
+                (Some(a), Some(b)) => 8 + a + b,
+                _ => break,
+            }
+        } else {
+            match u32at(at) {
+                Some(a) => 4 + a,
+                None => break,
+            }
+        };
+        at += len;
+    }
+    v
+}
+
 fn is_bgzf_fmt(fmt: &str) -> bool {
     matches!(fmt, "bam" | "bamlazy" | "bcf" | "vcfgz" | "csi" | "tbi")
 }
@@ -806,6 +846,10 @@ fn run_rd(c: &Case) -> Obs {
                 if a_has_cr && strip(&s) == strip(&a) {
                     return Obs::fail("-", "async-fasta-crlf-split-keeps-cr", format!("cap={} {detail} file={}", buf_cap(seed), crate::short_hex(&file)));
                 }
+            }
+            // FASTA: '>' in the middle of a sequence line ends the sequence when a fill happens to start there
+            if fmt == "fasta" && file.windows(2).any(|w| w[1] == b'>' && w[0] != b'\n') {
+                return Obs::fail("-", "async-fasta-definition-prefix-mid-line-at-fill-start", format!("cap={} {detail} file={}", buf_cap(seed), crate::short_hex(&file)));
             }
             // CSI: the sync reader folds every failure (also a short read) into InvalidData
             if matches!(fmt, "csi" | "tbi") && s.last().map(|x| x == "Err:InvalidData").unwrap_or(false) && a.last().map(|x| x == "Err:UnexpectedEof").unwrap_or(false) {
@@ -1377,6 +1421,25 @@ pub fn generate(rng: &mut Rng, tier: &str, w: &mut CaseWriter) {
                 payload[..k].to_vec()
             };
             w.push("rd", vec![fmt.to_string(), hex(&cut), [1u8, 5, 2][k % 3].to_string(), rng.next().to_string(), "2".into()]);
+        }
+    }
+    // BAM / BCF: cuts 0..5 bytes after every record boundary of the uncompressed stream (the
+    // length-prefix paths: clean end vs UnexpectedEof), BGZF layer intact
+    for fmt in ["bam", "bamlazy", "bcf"] {
+        for _ in 0..(if thorough { 12 } else { 2 }) {
+            let f = make_file(rng, fmt);
+            let payload = bgzf_decode(&f).unwrap();
+            let bounds = record_boundaries(fmt, &payload);
+            for (bi, &b) in bounds.iter().enumerate() {
+                if !thorough && bi > 3 && bi + 2 < bounds.len() {
+                    continue;
+                }
+                for d in 0..6usize {
+                    let k = (b + d).min(payload.len());
+                    let cut = crate::bgzip(&payload[..k], &[], d % 2 == 0, 6);
+                    w.push("rd", vec![fmt.to_string(), hex(&cut), [0u8, 1, 5][d % 3].to_string(), rng.next().to_string(), "3".into()]);
+                }
+            }
         }
     }
     for i in 0..(if thorough { 60 } else { 6 }) {
